@@ -35,7 +35,7 @@ fn inspection(rng: &mut Rng) -> Inspect {
     let v = rng.pick(NUM_VARS);
     let w = rng.pick(NUM_VARS);
     let sv = rng.pick(STR_VARS);
-    match rng.below(20) {
+    match rng.below(22) {
         0..=2 => Inspect::Stmt(format!("PRINT {v}")),
         3 => Inspect::Stmt(format!("PRINT {v} + {w} * 2; {sv}")),
         4 => Inspect::Stmt(format!("PRINT ABS({v}) ; INT({w} / 3) ; RND(0)")),
@@ -54,6 +54,9 @@ fn inspection(rng: &mut Rng) -> Inspect {
         16 => Inspect::Call("FNQ".into(), "1".into()),
         17 => Inspect::Call(rng.pick(&["FNC", "FNJ"]).to_string(), "\"x\"".into()),
         18 => Inspect::Stmt(format!("PRINT {v} < {sv}")),
+        // statements that always fail at the prompt and assign nothing
+        19 => Inspect::Stmt(format!("DEF {}({}) = {} + 100", rng.pick(&["FNC", "FNJ", "FNW"]), rng.pick(&["Y", "C, J", "Q$"]), rng.pick(&["Y", "1", "C"]))),
+        20 => Inspect::Stmt("NEXT Q9".into()),
         _ => Inspect::Stmt(format!("PRINT ({v}")),
     }
 }
